@@ -335,6 +335,15 @@ class FnEmitter:
             self.pre.append('%s = %s;' % (name, init))
         return name
 
+    def fresh_local_text(self, name, ct):
+        """a local object has just come into existence: the tracked cell / token may prophetically lie in it, but only on one of
+        the element slots of its type (generated predicate L0_SLOT_OK_<tag>, see emit_structs)"""
+        if ct.startswith('struct '):
+            self.f.l0.add('L0_FRESH_LOCAL_S')
+            return 'L0_FRESH_LOCAL_S(%s, &%s);' % (ct[len('struct '):], name)
+        self.f.l0.add('L0_fresh_local')
+        return 'L0_fresh_local(&%s, sizeof(%s));' % (name, name)
+
     def flush(self):
         p, self.pre = self.pre, []
         return p
@@ -438,8 +447,7 @@ class FnEmitter:
             if self.tm.is_elem(e['type']) or ct.startswith('struct '):
                 t = self.tmp(ct)
                 if ct == 'E':
-                    self.pre.append('L0_fresh_local(&%s, sizeof(%s));' % (t, t))
-                    self.f.l0.add('L0_fresh_local')
+                    self.pre.append(self.fresh_local_text(t, ct))
                 self.construct_into(sub, '&' + t)
                 if ct == 'E' or self.L.find_dtor_ct(ct) is not None:
                     self.temps_to_destroy.append((t, ct))
@@ -798,6 +806,7 @@ class FnEmitter:
             elif not (f2.record in L0_BOUNDARY_RECORDS and self.f.record != f2.record):
                 return self.call_lowered(f2, thisarg, args, e, discard)
         # ---- element special members / ghost types / external ----------------------
+        self._call_dest = dest
         return self.call_external(name, ftype, decl, thisarg, this_type, args, e, discard)
 
     def call_lowered(self, f2, thisarg, args, e, discard):
@@ -830,7 +839,7 @@ class FnEmitter:
             if dest is None:
                 ct_ = self.tm.ctype(rc_)
                 tmpname = self.tmp(ct_)
-                self.pre.append('L0_fresh_local(&%s, sizeof(%s));' % (tmpname, tmpname)); self.f.l0.add('L0_fresh_local')
+                self.pre.append(self.fresh_local_text(tmpname, self.tm.ctype(rc_)))
                 dest = '&' + tmpname
             argt.append(dest)
             self.emit_stmt_call('%s(%s)' % (f2.cname, ', '.join(argt)), self.L.may_throw(f2))
@@ -955,6 +964,25 @@ class FnEmitter:
         self.f.l0.add(prim)
         ret_ref = self.cat(e) != 'prvalue'
         ret_ct = self.ctype(e) + (' *' if ret_ref else '')
+        try:
+            rc_ = self.tm.canon_of(e['type'])
+        except Unsupported:
+            rc_ = ''
+        if not ret_ref and self.L.needs_out(rc_) and not self.tm.is_elem(e['type']):
+            # a class prvalue that owns an element is built in place by the primitive (hidden out-parameter), as for lowered functions
+            dest = getattr(self, '_call_dest', None)
+            self._call_dest = None
+            tmpname = None
+            if dest is None:
+                tmpname = self.tmp(self.tm.ctype(rc_))
+                self.pre.append(self.fresh_local_text(tmpname, self.tm.ctype(rc_)))
+                dest = '&' + tmpname
+            argt.append(dest)
+            self.emit_stmt_call('%s(%s)' % (prim, ', '.join(argt)), name not in self.NOTHROW_EXT)
+            if tmpname is not None:
+                self.temps_to_destroy.append((tmpname, self.tm.ctype(rc_)))
+                return tmpname
+            return ''
         if self.tm.is_elem(e['type']) and not ret_ref:
             raise Unsupported('external call returning element by value')
         may = name not in self.NOTHROW_EXT
@@ -1330,9 +1358,9 @@ class FnEmitter:
                     out.append(ind + l)
                 self.ret_constructed = True
                 return
-            out.append(ind + '%s %s;' % (ct, name))
-            out.append(ind + 'L0_fresh_local(&%s, sizeof(%s));' % (name, name))
-            self.f.l0.add('L0_fresh_local')
+            # declared at function level: the clean-up code of every exit edge names the object (guarded by its live flag)
+            self.decl_lines.append('%s %s;' % (ct, name))
+            out.append(ind + self.fresh_local_text(name, ct))
             if init is not None:
                 self.construct_into(init, '&' + name)
                 for l in self.flush():
@@ -1345,8 +1373,7 @@ class FnEmitter:
         if init is None:
             out.append(ind + '%s %s;' % (ct, name))
             if ct.startswith('struct ') or ct == 'E':
-                out.append(ind + 'L0_fresh_local(&%s, sizeof(%s));' % (name, name))
-                self.f.l0.add('L0_fresh_local')
+                out.append(ind + self.fresh_local_text(name, ct))
             return
         saved_temps, self.temps_to_destroy = self.temps_to_destroy, []
         pad = None
@@ -1774,8 +1801,26 @@ class LoweringDriver(Lowering):
                     visit(bytag[d])
             if lines is None:
                 out.append('struct %s; /* no definition available: %s */' % (tag, canon))
+                out.append('#define L0_SLOT_OK_%s(off) ((off) %% ESZ == 0)' % tag)
             else:
                 out.append('struct %s { /* %s */\n  %s\n};\n#define HAVE_%s 1' % (tag, canon, '\n  '.join(lines), tag))
+                # element slots of an object of this type: where the tracked cell may lie when such an object is a local
+                terms = []
+                for l in lines:
+                    mm = re.match(r'^(struct (\w+)|E|uint8_t|char)\s+(\w+)(\[(\d+)\])*;', l.strip())
+                    if not mm:
+                        continue
+                    mty, mtag, mname = mm.group(1), mm.group(2), mm.group(3)
+                    dims = re.findall(r'\[(\d+)\]', l)
+                    at = '(base + __builtin_offsetof(struct %s, %s))' % (tag, mname)
+                    if mty == 'E' and not dims:
+                        terms.append('off == %s' % at)
+                    elif mty in ('E', 'uint8_t', 'char') and dims:
+                        terms.append('(off >= %s && off < %s + sizeof(((struct %s *)0)->%s) && (off - %s) %% ESZ == 0)' % (at, at, tag, mname, at))
+                    elif mtag is not None and not dims and mtag in emitted:
+                        terms.append('l0_slot_ok_%s(%s, off)' % (mtag, at))
+                out.append('static inline _Bool l0_slot_ok_%s(uint64_t base, uint64_t off) { (void)base; (void)off; return %s; }' % (tag, ' || '.join(terms) if terms else '0'))
+                out.append('#define L0_SLOT_OK_%s(off) l0_slot_ok_%s(0, off)' % (tag, tag))
         for canon in list(defs):
             visit(canon)
         return '\n'.join(out)
